@@ -4,6 +4,7 @@ C05 — property theorems (statements only; helper lemmas live in `Proofs/C05*.l
 import Mahotas.Proofs.C05Nd
 import Mahotas.Proofs.C05Strided
 import Mahotas.Proofs.C05Abscissa
+import Mahotas.Proofs.C05Bounds
 open Mahotas Mahotas.C05 Mahotas.C04
 
 /-- **C05-T1 (the 1-D pass is the exact lower envelope).** For every integer line `f` of every
@@ -267,6 +268,24 @@ theorem C05_rounded_kernel_same_owners (rnd : ℚ → ℚ) (f : Array Int) :
     (Rounding rnd → f.size ≤ 2 ^ 12 → (∀ i, 0 ≤ f.getD i 0) → (∀ i, f.getD i 0 ≤ 2 ^ 26) →
       owners1dR rnd f = owners1d f) :=
   ⟨fun hA => owners1dR_eq rnd f hA, fun hr hs hlo hhi => owners1dR_eq_small rnd hr f hs hlo hhi⟩
+
+/-- **C05 (doubles decide like rationals on every line of every pass).** For every shape whose sides are
+at most `2¹²` and whose Python sentinel is at most `2²⁶` (every 2-D and 3-D array with sides `≤ 2¹²`,
+every 4-D array with sides `< 2¹²`), every input, every pass `k` and every pixel `p`: all values of the
+image before pass `k` lie in `[0, sentinel]` (each pass can only lower a value and keeps it non-negative),
+hence the line through `p` along axis `k` — the argument of the 1-D kernel in that pass — gets the same
+owners from the kernel with rounded abscissae (`owners1dR rnd`, any `Rounding`) as from the exact model. -/
+theorem C05_rounded_passes_same_owners (rnd : ℚ → ℚ) (hr : Rounding rnd) (shape : List Nat) (bw : Array Int)
+    (hside : ∀ d ∈ shape, d ≤ 2 ^ 12) (hsent : sentinel shape ≤ 2 ^ 26)
+    (k : Nat) (hk : k < shape.length) (p : List Int) :
+    Bounded (sentinel shape) ((List.range k).foldl passCoord (initCoord shape bw)).1 ∧
+    owners1dR rnd (lineOf ((List.range k).foldl passCoord (initCoord shape bw)).1 p k) =
+      owners1d (lineOf ((List.range k).foldl passCoord (initCoord shape bw)).1 p k) :=
+  ⟨(passes_bounded shape bw k (by omega)).1, lines_rounded_same rnd hr shape bw hside hsent k hk p⟩
+
+/-- non-vacuity of the size hypotheses: the largest 2-D, 3-D and 4-D shapes covered -/
+example : sentinel [4096, 4096] ≤ 2 ^ 26 ∧ sentinel [4096, 4096, 4096] ≤ 2 ^ 26 ∧
+    sentinel [4095, 4095, 4095, 4095] ≤ 2 ^ 26 := by decide
 
 /-- non-vacuity: a reversed-rows, every-other-column view (base 5, strides −4, 2) into a buffer of 8
 elements is `ViewOK`; `py_dt` on it transforms the four view elements and leaves the rest alone -/
